@@ -97,6 +97,7 @@ pub fn run<const V: u32>() {
         // family "space": C24 side-metadata layout of the configuration, C31 address lookups
         "layout" => crate::modes_space::layout::<V>(&plan),
         "churn" => crate::modes_space::churn::<V>(&mut d, &params, cfg.heap_mb, is_nogc),
+        "bigchunks" => crate::modes_space::bigchunks::<V>(&mut d, &params, cfg.heap_mb),
         "lookup" => crate::modes_space::lookup::<V>(&mut d, &params, &plan, &out, is_nogc),
         _ => {
             eprintln!("unknown mode");
